@@ -603,9 +603,9 @@ int main(int argc, char **argv) {
     add("c02.api." + prof, [prof](uint64_t, Rng &rng, CaseResult &r) { flowCase(rng, r, prof, O_C02); });
     add("c04." + prof, [prof](uint64_t, Rng &rng, CaseResult &r) { flowCase(rng, r, prof, O_C04); });
   }
-  for (std::string prof : {"general", "nets", "polarity", "dense", "multirow", "rowhigh-any", "crowded", "faraway"})
+  for (std::string prof : {"general", "nets", "polarity", "dense", "multirow", "rowhigh-any", "crowded", "faraway", "big"})
     add("c05." + prof, [prof](uint64_t, Rng &rng, CaseResult &r) { flowCase(rng, r, prof, O_C05); });
-  for (std::string prof : {"general", "manyfixed", "dense", "obstruction", "crowded", "faraway"})
+  for (std::string prof : {"general", "manyfixed", "dense", "obstruction", "crowded", "faraway", "big"})
     add("c03.flow." + prof, [prof](uint64_t, Rng &rng, CaseResult &r) { flowCase(rng, r, prof, O_C03); });
   add("c03.global", [](uint64_t, Rng &rng, CaseResult &r) { c03Global(rng, r); });
   for (std::string prof : {"general", "rowhigh", "obstruction", "polarity", "dense", "crowded", "big20"})
